@@ -28,7 +28,8 @@ def extra(tier, rng):
     import coregen
     return [coregen.override_family(rng) for _ in range(150 if tier == "quick" else 3000)] + \
         [coregen.shared_override_family(rng) for _ in range(100 if tier == "quick" else 2000)] + \
-        ctxhist.cases(tier, rng, focus="ov") + cc.corefam4.callctx_cases(tier, cc.fork(rng, "callctx"))
+        ctxhist.cases(tier, rng, focus="ov") + cc.corefam4.callctx_cases(tier, cc.fork(rng, "callctx")) + \
+        cc.guard_ctx_cases(tier, cc.fork(rng, "guard"))
 
 
 def plan(tier, seed):
@@ -36,22 +37,22 @@ def plan(tier, seed):
 
 
 def run_case(case):
-    if case.get("special") == "ctxhist":
+    if case.get("special") in ("ctxhist", "ctxwith"):
         return ctxhist.run(case)
     return cc.run_case_for(PID, case)
 
 
 def shrink(case):
-    if case.get("special") == "ctxhist":
+    if case.get("special") in ("ctxhist", "ctxwith"):
         return ctxhist.shrink(case)
     return cc.shrink_case(case)
 
 
 def neighbours(case, rng):
-    if case.get("special") == "ctxhist":
+    if case.get("special") in ("ctxhist", "ctxwith"):
         return ctxhist.neighbours(case, rng)
     return cc.neighbours_case(case, rng, [p for p, _ in MIX])
 
 
 def signature(case, v):
-    return cc.signature_for(case, v)
+    return cc.signature_for(case, v, PID)
